@@ -114,6 +114,17 @@ def transport_input(rng):
     return t
 
 
+def long_table_input(rng):
+    """one simulation writes many rows (around the 80-row reservation of the value table), a later simulation of the same call adds
+    columns (redefined SELECTED_OUTPUT, new USER_PUNCH): a column that appears late must be padded for all rows already written"""
+    n = rng.choice([70, 79, 80, 81, 95, 130])
+    so = rng.choice([1, 2])
+    t = "SOLUTION 1\n pH 7\n Na 1\n Cl 1\nSELECTED_OUTPUT %d\n -reset false\n -high_precision true\n -step true\n -totals Na\nREACTION 1\n NaCl 1\n 0.001 moles in %d steps\nEND\n" % (so, n)
+    t += "SELECTED_OUTPUT %d\n -reset false\n -high_precision true\n -step true\n -totals Na Cl K\nUSER_PUNCH %d\n -headings na_mmol\n 10 PUNCH TOT(\"Na\") * 1000\nUSE solution 1\nREACTION 2\n KCl 1\n 0.001 0.002\nEND\n" % (so, so)
+    t += "USE solution 1\nREACTION 3\n NaCl 1\n 0.0005\nEND\n"
+    return t
+
+
 def script(db, pieces, cwd):
     """pieces: list of (entry, text)"""
     ops = [["spy"], ["c", "LoadDatabase", 0, os.path.join(vlib.DB, db)], ["c", "SetDumpStringOn", 0, 1]]
@@ -249,6 +260,8 @@ def run(ctx):
             inputs.append(("late%d" % k, "phreeqc.dat", defined_later_input(ctx.rng)))
         for k in range(ctx.n(16, 120)):
             inputs.append(("column%d" % k, "phreeqc.dat", transport_input(ctx.rng)))
+        for k in range(ctx.n(3, 12)):
+            inputs.append(("longtable%d" % k, "phreeqc.dat", long_table_input(ctx.rng)))
     jobs = []
     for name, db, text in inputs:
         sims = split_sims(text)
